@@ -27,7 +27,7 @@ def run(chk):
     proved = setup(chk, "C13")
     rng = rng_for(chk, 13)
     quick = chk.tier == "quick"
-    progs, _ = gen_prog.gen_programs(rng.randrange(10 ** 9), 250 if quick else 2500, focus={"listen": 0.2})
+    progs, _ = gen_prog.gen_programs(rng.randrange(10 ** 9), 250 if quick else 2500, focus={"listen": 0.2}, extras=False)
     # keep programs the implementation accepts
     lines = [f"(exec v{i} parse {C.hx(p)})" for i, p in enumerate(progs)]
     res, _ = C.run_cases({"debug": lines}, "C13_valid")
